@@ -14,6 +14,16 @@ MCOutside(b, nc) ==
     \/ b = "fs" /\ nc \in {"dotdotslash", "slash", "abs"}
     \/ b = "vault" /\ nc \in {"dotdot"}
 
+\* every key family jwx knows; oct is symmetric only
+Families == {"EC-P256", "EC-P384", "EC-P521", "RSA", "OKP-Ed25519", "OKP-X25519"}
+AllFamilies == Families \cup {"oct"}
+MCJwkClasses == {<<"none", "-">>, <<"sym", "oct">>} \cup {<<"pub", f>> : f \in Families} \cup {<<"priv", f>> : f \in Families}
+\* smaller set for the longer configs: one public control, private keys of three families, the symmetric key
+MCJwkClassesSmall == {<<"none", "-">>, <<"sym", "oct">>, <<"pub", "EC-P256">>, <<"priv", "EC-P256">>, <<"priv", "OKP-Ed25519">>, <<"priv", "RSA">>}
+\* what the code refuses today: jwk.Raw() of the header key is assignable to crypto.Signer (measured by the driver, see keystore.py)
+MCRefusedToday == {"EC-P256", "EC-P384", "EC-P521", "RSA", "OKP-Ed25519"}
+MCRefusedOnlyEcRsa == {"EC-P256", "EC-P384", "EC-P521", "RSA"}
+
 AllDone == ops = MaxOps
 EmitOps == (AllDone /\ Hist) => PrintT(ToJson(hist))
 =============================================================================
